@@ -13,7 +13,7 @@ U64_MAX = (1 << 64) - 1
 KINDS = {
     "cb": (0, "2", 5, 0), "cb9": (0, "SL", 9, 0),
     "SL1": (1, "SL", 8, 1), "SL2": (1, "SL", 8, 2), "SL1x": (1, "SL", 9, 1), "SL2x": (1, "SL", 12, 2), "EL2x": (1, "EL", 9, 2), "EL1": (1, "EL", 8, 1), "EL2": (1, "EL", 8, 2),
-    "SD1": (1, "SD", 8, 1), "ED1": (1, "ED", 8, 1),
+    "SD1": (1, "SD", 8, 1), "ED1": (1, "ED", 8, 1), "SD2": (1, "SD", 8, 2), "ED2": (1, "ED", 8, 2),
     "WD": (1, "WD", 17, 7), "RP": (1, "RP", 17, 7), "IR": (1, "IR", 8, 1), "KW": (1, "KW", 16, 7), "DW": (1, "DW", 16, 7),
     "BR": (1, "BR", 16, 7), "DP": (1, "DP", 17, 7), "LQ": (1, "LQ", 18, 7), "SE": (1, "SE", 8, 1), "SW": (1, "SW", 16, 7),
     "SF1": (1, "SF", 16, 1), "SF2": (1, "SF", 16, 2), "EF1": (1, "EF", 8, 1), "EF2": (1, "EF", 8, 2), "EF0": (1, "EF", 8, 0),
@@ -39,6 +39,7 @@ ALPHABETS = {
     "small_fl": ["SF1", "EF1", "BR", "jup"],
     "fl_accts": ["SF1", "EF1", "EF21", "EF12", "EF2", "BR"],
     "delev": ["cb", "SD1", "ED1", "WD", "RP", "IR", "BR", "krr", "jup", "EL1"],
+    "delev2": ["SD1", "SD2", "ED1", "ED2", "WD", "RP"],          # two accounts: a second start naming another account
 }
 VAL_CFGS = [
     "1 SL EL 4 2 KRR 2 KRO 1 IR 3 DUS 7 SL EL IR WD RP KW DW",
